@@ -230,8 +230,13 @@ class FileInfo:
             self.arch_len = 0
             return
 
-        self.start_data = data[:self.vpk.dir_limit]
-        arch_data = data[self.vpk.dir_limit:]
+        dir_limit = self.vpk.dir_limit
+        if dir_limit is None:
+            # No limit, everything is stored in the directory. Slicing with None would instead
+            # produce a second full copy of the data for the archive.
+            dir_limit = len(data)
+        self.start_data = data[:dir_limit]
+        arch_data = data[dir_limit:]
 
         self.arch_len = len(arch_data)
 
